@@ -206,6 +206,7 @@ PairOf(cx) ==
 RECURSIVE AtomV(_, _)
 AtomV(a, cx) ==
     CASE a.k = "c" -> a.i
+      [] a.k = "il" -> a.i                             \* integer literal
       [] a.k = "dp" -> PAt(cx.A[cx.d], cx.st, a.n, cx.di, a.i)
       [] a.k = "sp" -> PAt(cx.A[cx.s], cx.st, a.n, cx.si, a.i)
       [] a.k = "dc" -> cx.A[cx.d].c[a.n][a.i + 1]
@@ -234,7 +235,16 @@ AtomV(a, cx) ==
       [] a.k = "kw" ->                                  \* SPH_KERNEL.kernel(XIJ, RIJ, u)
             LET pc == PairOf(cx)
             IN Kern(cx.K, XIJ(pc), R2IJ(pc), AtomV(a.a[1], cx))
+\* "idiv": num / den written between two integer-typed operands (integer
+\* literal, integer-valued instance attribute, int-typed property).  What the
+\* Python source says is the true quotient.  cx.cdiv selects the OTHER
+\* semantics, C's truncating integer division, which is only used to classify
+\* a disagreement (finding C02-cdivision-int), never as the expected value.
+TDiv(n, d) == IF n >= 0 THEN n \div d ELSE -((-n) \div d)        \* d > 0
 AtomQ(a, cx) == IF a.k = "sym" /\ a.n \in RatSyms THEN SymRat(a.n, PairOf(cx))
+                ELSE IF a.k = "idiv"
+                THEN (IF cx.cdiv THEN RInt(TDiv(AtomV(a.a[1], cx), AtomV(a.a[2], cx)))
+                      ELSE Rat(AtomV(a.a[1], cx), AtomV(a.a[2], cx)))
                 ELSE RInt(AtomV(a, cx))
 
 TermV(tm, cx) ==
@@ -314,24 +324,26 @@ NbrsOfData(A, st) ==
         {j \in 0..(A[t[2]].nall - 1) : IsNbr(A, st, t[1], t[3], t[2], j)}]
 
 \* the effect of one event of the log on the data
-StepData(W, e, x, eqOf, nbrs) ==
+StepData(W, e, x, eqOf, nbrs, cdiv) ==
     IF e.k \notin Hooks THEN W
     ELSE LET q == eqOf[e.id]
              b == x.body[Key(e.id)]
              cx == [A |-> W.A, st |-> x.stride, d |-> q.dest, di |-> e.d, s |-> e.a,
                     si |-> e.s, at |-> b.attrs, t |-> x.t, dt |-> x.dt, K |-> x.kern,
                     nb |-> IF e.a >= 0 /\ e.d >= 0 THEN nbrs[<<q.dest, e.a, e.d>>] ELSE {},
-                    mat |-> <<>>]
+                    mat |-> <<>>, cdiv |-> cdiv]
          IN ExecStmts(W, b[e.k], cx, x.types)
 
-EvalLog(x, log, nbrs) ==
+EvalLogM(x, log, nbrs, cdiv) ==
     LET E == ProgEqs(NProg(x.prog))
         eqOf == [id \in {E[i].eid : i \in DOMAIN E} |->
                     E[CHOOSE i \in DOMAIN E : E[i].eid = id]]
         F[i \in 0..Len(log)] ==
             IF i = 0 THEN [A |-> Arr0(x), bad |-> FALSE]
-            ELSE StepData(F[i - 1], log[i], x, eqOf, nbrs)
+            ELSE StepData(F[i - 1], log[i], x, eqOf, nbrs, cdiv)
     IN F[Len(log)]
+\* the documented (Python) semantics: `/` is true division
+EvalLog(x, log, nbrs) == EvalLogM(x, log, nbrs, FALSE)
 
 SpecLog(x) == Run(NProg(x.prog), Arr0(x), NbrsOfData(Arr0(x), x.stride), x.env).log
 \* the state after one compute(): the statements of every hook invocation of
@@ -389,7 +401,7 @@ OrderDiff(prog, log1, log2) ==
 
 \* well-formedness of a case: the data conventions the exactness argument
 \* rests on, and read/write discipline that makes sums order independent
-BaseProps == {"x", "y", "z", "h", "m", "rho", "u", "v", "w"}
+BaseProps == {"x", "y", "z", "h", "m", "rho", "u", "v", "w", "ik"}
 WellFormed(x) ==
     /\ \A a \in DOMAIN x.arr :
         /\ \A i \in DOMAIN x.arr[a].p.h : x.arr[a].p.h[i] % 4 = 2
